@@ -1,14 +1,12 @@
 CONSTANTS
   Queries <- Q3
-  Filter <- F3
-  Ids = {"1", "2"}
-  Vals = {"1", "2"}
-  MaxWrites = 3
-  MaxBad = 1
+  Ids = {}
+  Vals = {}
+  MaxWrites = 0
+  MaxBad = 0
   RegisterFirst = TRUE
   BadInvalidates = TRUE
-SPECIFICATION Spec
-CONSTRAINT Bounded
+SPECIFICATION TSpec
 INVARIANTS Converged PerQuery CurWhileHeld
-
+POSTCONDITION Accepted
 CHECK_DEADLOCK FALSE
